@@ -191,6 +191,20 @@ CHECKS["C13"] = dict(
          "and ODE kernels are covered by the C10/C16 drivers' own runs, not here. One genuine defect (self-play pair "
          "index) was found and fixed (d589596).")
 
+CHECKS["C17"] = dict(
+    category="model_checking", design_ref="DESIGN.md section 2 (C17)",
+    technique="instance decoder as a cut machine with a geometric witness in TLA+; TLC checks all cut/trim sequences on "
+              "small templates; recorded cuts of the real decoder (guarded hook) replayed through the machine step by "
+              "step and the produced instance compared with the final machine state",
+    text="MC_InstDecoder.tla: whatever cuts are chosen, the item regions stay a feasible packing into k bins and the area "
+         "keeps needing k bins. The real decoder is run on synthetic (guillotine-built) and shipped templates with "
+         "random, all -1/0/1, constant and float-neighbour vectors and 0..8 slack pairs; each hook event must be a legal "
+         "Cut/Trim, the final shape multiset must equal the produced instance, and name, bin size, item count, area "
+         "range, lower bound = template bin need, repeatability, and objective ranges ([0,1] as exact float order "
+         "statements; Errors(template) = 0; hardness repeatable) are checked by TLC.",
+    note="Genuine defect found and fixed (05ea788). Which item/position the real numbers select is NOT specified (only "
+         "legality), so a different but legal selection rule never alarms. Hardness value itself is not judged.")
+
 NOT_YET = {
 }
 
@@ -223,7 +237,7 @@ def main() -> None:
             "guard": "MOPTIPYAPPS_VERIF",
             "enable": "checks set MOPTIPYAPPS_VERIF=1 in the environment before importing moptipyapps from /repo (pure Python, no build step)",
             "baseline_off_cmd": "cd /repo && env -u MOPTIPYAPPS_VERIF " + BASE["cmd"].split("&& ", 1)[1].replace("<file>", "/tmp/baseline_off.junit.xml"),
-            "source_commits": [],
+            "source_commits": ["ff01998"],
             "add_only": True,
         },
         "engines": [{"name": "tlc", "path": "/verif/spec", "serves_properties": [c["property_id"] for c in checks],
